@@ -529,3 +529,90 @@ Proof.
     + destruct (proj1 (Hperm x) (or_intror Hx)) as [E|Hin]; [|exact Hin]. subst x. specialize (Fa _ Hx). unfold ltT in Fa. lia.
     + destruct (proj2 (Hperm x) (or_intror Hx)) as [E|Hin]; [|exact Hin]. subst x. specialize (Fb _ Hx). unfold ltT in Fb. lia.
 Qed.
+
+(* ---------- overwrites only: some version is delivered to, exactly once ---------- *)
+Lemma some_exec_no_delete s ls k : never_deleted k ls -> (exists v, pipes s k = Some v) -> exists v, pipes (exec_from s ls) k = Some v.
+Proof.
+  revert s; induction ls as [|l ls IH]; intros s Hnd Hv; [exact Hv|]. rewrite exec_from_cons. apply IH.
+  - intros Hx. apply Hnd. right. exact Hx.
+  - apply some_step_no_delete; [|exact Hv]. intros ->. apply Hnd. left. reflexivity.
+Qed.
+
+Theorem timed_overwritten_some H T0 T1 keys k v te tv :
+  send_in H T0 T1 keys -> In k keys -> In (tv, Visit k) H ->
+  In (te, EnvStore k v) H -> (te < T0)%N ->
+  (forall t l, In (t, l) H -> touches k l -> (t <= te)%N \/ (T1 < t)%N \/ is_store l = true) ->
+  exists v', count k v' (visited (exec (labels H))) = 1%nat /\
+             forall v'', v'' <> v' -> count k v'' (visited (exec (labels H))) = 0%nat.
+Proof.
+  intros [Hs Hst Hsu Hvis] Hk Hv Hreg Hte Hoth.
+  destruct (Hvis _ _ Hv) as [Htv0 Htv1].
+  destruct (sorted_split H _ Hs Hst) as [A [B [HH [HA HB]]]]. cbn [fst] in HA, HB.
+  rewrite HH in Hs. destruct (sorted_app _ _ Hs) as [HsA HsB']. inversion HsB' as [|? ? HsB _]; subst.
+  rewrite exec_split. cbn [snd].
+  assert (HregA : In (te, EnvStore k v) A).
+  { apply in_app_or in Hreg as [Hr|[Hr|Hr]]; [exact Hr|inversion Hr|]. specialize (HB _ Hr). cbn in HB. lia. }
+  destruct (sorted_split A _ HsA HregA) as [A1 [A2 [HAeq [_ HA2]]]]. cbn [fst] in HA2.
+  assert (HpA : exists v0, pipes (exec (labels A)) k = Some v0).
+  { rewrite HAeq. rewrite exec_split. cbn [snd]. apply some_exec_no_delete.
+    - intros Hx. apply in_map_iff in Hx as [[t l] [El Hin]]. cbn in El. subst l.
+      assert (HinA : In (t, EnvDelete k) A) by (rewrite HAeq; apply in_or_app; right; right; exact Hin).
+      assert (HinH : In (t, EnvDelete k) (A ++ (T0, Start keys) :: B)) by (apply in_or_app; left; exact HinA).
+      specialize (HA2 _ Hin). specialize (HA _ HinA). cbn in HA2, HA.
+      destruct (Hoth _ _ HinH eq_refl) as [Hx|[Hx|Hx]]; [lia|lia|discriminate].
+    - exists v. cbn [stepf pipes]. unfold pset. rewrite N.eqb_refl. reflexivity. }
+  assert (HvB : In (tv, Visit k) B).
+  { apply in_app_or in Hv as [Hr|[Hr|Hr]]; [specialize (HA _ Hr); cbn in HA; lia|inversion Hr|exact Hr]. }
+  destruct (first_split (fun x => is_visit k (snd x)) B) as [B1 [[tf y] [B2 [HBeq [Hy HB1]]]]].
+  { exists (tv, Visit k). split; [exact HvB|]. cbn. apply N.eqb_refl. }
+  cbn [snd] in Hy. destruct y as [| |?|k0]; try discriminate. cbn in Hy. apply N.eqb_eq in Hy. subst k0.
+  assert (HinHf : In (tf, Visit k) (A ++ (T0, Start keys) :: B)).
+  { apply in_or_app. right. right. rewrite HBeq. apply in_or_app. right. left. reflexivity. }
+  destruct (Hvis _ _ HinHf) as [Htf0 Htf1].
+  rewrite HBeq in HsB.
+  assert (HB1t : forall b, In b B1 -> (fst b < tf)%N).
+  { clear - HsB. intros b Hb.
+    assert (Hx := HsB). clear HsB. induction B1 as [|c B1 IH]; [destruct Hb|]. cbn in Hx. inversion Hx as [|? ? Hst Hall]; subst.
+    destruct Hb as [->|Hb]; [|auto]. rewrite Forall_forall in Hall. specialize (Hall (tf, Visit k)). cbn in Hall. apply Hall.
+    apply in_or_app. right. left. reflexivity. }
+  rewrite HBeq, labels_app. cbn [labels map snd].
+  apply overwritten_exactly_one_version.
+  - split; cbn [stepf visited map]; [constructor|intros k0 []].
+  - cbn [stepf pipes]. exact HpA.
+  - cbn [stepf pending]. exact Hk.
+  - intros Hx. apply in_map_iff in Hx as [[t l] [El Hin]]. cbn in El. subst l.
+    assert (HinB : In (t, EnvDelete k) B) by (rewrite HBeq; apply in_or_app; left; exact Hin).
+    assert (HinH : In (t, EnvDelete k) (A ++ (T0, Start keys) :: B)) by (apply in_or_app; right; right; exact HinB).
+    specialize (HB _ HinB). cbn in HB. specialize (HB1t _ Hin). cbn in HB1t.
+    destruct (Hoth _ _ HinH eq_refl) as [Hx|[Hx|Hx]]; [lia|lia|discriminate].
+  - intros l ks Hl ->.
+    assert (Hin : exists t, In (t, Start ks) B).
+    { apply in_app_or in Hl as [Hl|[Hl|Hl]].
+      - apply in_map_iff in Hl as [[t l0] [El Hin]]. cbn in El. subst l0. exists t. rewrite HBeq. apply in_or_app. left. exact Hin.
+      - discriminate.
+      - apply in_map_iff in Hl as [[t l0] [El Hin]]. cbn in El. subst l0. exists t. rewrite HBeq. apply in_or_app. right. right. exact Hin. }
+    destruct Hin as [t Hin]. assert (t = T0) by (apply (Hsu t ks); apply in_or_app; right; right; exact Hin).
+    specialize (HB _ Hin). cbn in HB. lia.
+  - intros l Hl. apply in_map_iff in Hl as [[t l0] [El Hin]]. cbn in El. subst l0. exact (HB1 _ Hin).
+Qed.
+
+(* interval form: the verdict must_some of the executable oracle *)
+Theorem send_delivery_some H T0 T1 keys k v te ri rr si sr (others : list obs_op) :
+  send_in H T0 T1 keys -> In k keys -> (exists tv, In (tv, Visit k) H) ->
+  (si < T0)%N -> (T1 < sr)%N ->
+  In (te, EnvStore k v) H -> (ri < te)%N -> (te < rr)%N ->
+  (forall t l, In (t, l) H -> touches k l -> (t, l) <> (te, EnvStore k v) ->
+     exists o, In o others /\ oo_lab o = l /\ (oo_inv o < t)%N /\ (t < oo_ret o)%N) ->
+  must_some ri rr si sr others = true ->
+  exists v', count k v' (visited (exec (labels H))) = 1%nat /\
+             forall v'', v'' <> v' -> count k v'' (visited (exec (labels H))) = 0%nat.
+Proof.
+  intros Hsend Hk [tv Hv] Hsi Hsr Hreg Hri Hrr Hcover Hm.
+  unfold must_some in Hm. apply andb_prop in Hm as [M1 M2]. apply N.ltb_lt in M1. rewrite forallb_forall in M2.
+  eapply timed_overwritten_some; eauto; [lia|].
+  intros t l Hin Ht. destruct (N.eq_dec t te) as [->|Hne]; [left; lia|].
+  destruct (Hcover t l Hin Ht) as [o [Ho [Hl [O1 O2]]]]; [intros Hx; inversion Hx; congruence|].
+  specialize (M2 o Ho). apply orb_prop in M2 as [M2|M2].
+  - unfold certainly_outside in M2. apply orb_prop in M2 as [M2|M2]; apply N.ltb_lt in M2; [left|right; left]; lia.
+  - right. right. rewrite <- Hl. exact M2.
+Qed.
